@@ -433,6 +433,8 @@ where
                             // the contents of the new one.
                             stream.ldap = new_stream.ldap;
                             stream.rx = new_stream.rx;
+                            // The result of the previous page is not the result of the Search.
+                            stream.res = None;
                             continue 'ent;
                         }
                     }
